@@ -6,7 +6,7 @@ from callgraph import CallGraph
 from rules.common import adt_base, Anchors, path_calls, ret_kind, root_param, arg_locs
 import stdmodel as SM
 
-LEVEL = 'proof'
+LEVEL = 'other'       # was 'proof': seeded changes twice found a channel the reduction had not listed (DESIGN.md §7.6), so the honest level is structural
 NEED_FIXTURE = True
 ROLES = ['lib']
 EXPLANATION = ('Scope: every library function generic over an io::Write sink (builders, emission helpers, node encoders, the '
